@@ -1627,7 +1627,125 @@ def strlib_cases(rng, n):
     return cases
 
 
+# ---------------------------------------------------------------- traceability: what is modelled rather than verified
+# every implementation object that coq/Model/C01_EnvView.v mirrors by hand (its comments name the same objects)
+MODELLED = [
+    "webob.request:BaseRequest.__init__",                 # init: the wrapper keeps a reference to the environ
+    "webob.descriptors:environ_getter",                   # GKey / GKeyReq, OGetterSet / OGetterDel / OReqSet
+    "webob.descriptors:converter",                        # fset path only: serialize, then the wrapped setter (int attributes)
+    "webob.etag:etag_property",                           # OEtagSet (None is stored), GKey on the raw value
+    "webob.acceptparse:accept_property",                  # OAcceptSet (None = silent delete); same shape for the next three
+    "webob.acceptparse:accept_charset_property",
+    "webob.acceptparse:accept_encoding_property",
+    "webob.acceptparse:accept_language_property",
+    "webob.request:BaseRequest._content_type__get",       # GContentType
+    "webob.request:BaseRequest._content_type__set",       # OContentTypeSet (also the deleter)
+    "webob.request:BaseRequest._host__get",               # GHost
+    "webob.request:BaseRequest._host__set",               # OHostSet
+    "webob.request:BaseRequest._host__del",               # OHostDel
+    "webob.headers:key2header",
+    "webob.headers:header2key",
+    "webob.headers:_trans_key",                           # trans_key (with Lib/C01_Str.py_title)
+    "webob.headers:_trans_name",                          # trans_name (with Lib/C01_Str.py_upper)
+    "webob.request:BaseRequest._headers__get",
+    "webob.headers:EnvironHeaders.__init__",
+    "webob.headers:EnvironHeaders.__getitem__",           # GHdr (through Mapping.get)
+    "webob.headers:EnvironHeaders.__setitem__",           # OHdrSet
+    "webob.headers:EnvironHeaders.__delitem__",           # OHdrDel
+    "webob.headers:EnvironHeaders.keys",                  # GHdrKeys
+    # (OHdrPop / OHdrSetDefault / OHdrUpdate and GHdr also mirror the stdlib mixins collections.abc.MutableMapping.pop /
+    #  .setdefault / .update and Mapping.get over the three methods above; they are frozen stdlib code without source text
+    #  and are not listed: CPython behaviour validated by the correspondence)
+    "webob.request:BaseRequest.GET",                      # get_GET
+    "webob.multidict:GetDict.__init__",
+    "webob.multidict:GetDict.on_change",                  # on_change (url_encode itself is a Section variable)
+    "webob.multidict:GetDict.__setitem__",                # get_mut: MultiDict mutator, then on_change unless it raised
+    "webob.multidict:GetDict.add",
+    "webob.multidict:GetDict.__delitem__",
+    "webob.multidict:GetDict.clear",
+    "webob.multidict:GetDict.setdefault",
+    "webob.multidict:GetDict.pop",
+    "webob.multidict:GetDict.popitem",
+    "webob.multidict:GetDict.update",
+    "webob.multidict:GetDict.extend",
+    # the MultiDict mutators underneath are C08's model (Model/MultiDict.v step_i), reused here
+    "webob.multidict:MultiDict.__setitem__",
+    "webob.multidict:MultiDict.add",
+    "webob.multidict:MultiDict.__delitem__",
+    "webob.multidict:MultiDict.clear",
+    "webob.multidict:MultiDict.setdefault",
+    "webob.multidict:MultiDict.pop",
+    "webob.multidict:MultiDict.popitem",
+    "webob.multidict:MultiDict.extend",
+    "webob.multidict:MultiDict.items",
+    "webob.request:BaseRequest.cookies",                  # a new RequestCookies per read: no state of its own
+    "webob.cookies:RequestCookies.__init__",
+    "webob.cookies:RequestCookies._cache",                # get_cookies
+    "webob.cookies:RequestCookies._mutate_header",        # mutate_header: the environ logic (the regex edit is a Section variable)
+    "webob.cookies:RequestCookies.__setitem__",           # OCookieSet
+    "webob.cookies:RequestCookies.__delitem__",           # OCookieDel
+    "webob.cookies:RequestCookies.clear",                 # OCookieClear
+    "webob.cookies:RequestCookies.items",                 # GCookies
+    "webob.request:BaseRequest._cache_control__get",      # get_CC
+    "webob.request:BaseRequest._cache_control__set",      # cc_assign
+    "webob.request:BaseRequest._cache_control__del",      # OCCDel
+    "webob.request:BaseRequest._update_cache_control",    # cc_callback
+    "webob.cachecontrol:CacheControl.parse",              # only: the callback is armed before the dict is filled (get_CC)
+    "webob.cachecontrol:UpdateDict._updated",             # cc_mut: a written dict calls back with the bound object
+    "webob.request:BaseRequest.charset",                  # get_charset: fixed at first use
+]
+# string-level functions that are Section variables of the model; the correspondence instantiates them by tables
+# recorded from these objects on the strings of each history (they are C09 / C12 / C15's to model)
+TABULATED = [
+    "webob.util:parse_qsl_text", "urllib.parse:urlencode", "webob.cookies:parse_cookie", "webob.cookies:_rx_cookie",
+    "webob.cookies:_value_quote", "webob.cookies:RequestCookies._valid_cookie_name", "webob.cachecontrol:token_re",
+    "webob.cachecontrol:serialize_cache_control", "webob.cachecontrol:value_property", "webob.cachecontrol:exists_property",
+    "webob.cachecontrol:UpdateDict", "webob.request:detect_charset", "webob.request:_is_utf8",
+]
+REGENERATED = []       # nothing is translated from source for C01
+# reached by the A-vs-brand-new-Request oracle only (no Gallina counterpart)
+ORACLE_ONLY = [
+    "webob.request:BaseRequest.encget", "webob.request:BaseRequest.encset", "webob.descriptors:environ_decoder",
+    "webob.descriptors:converter_date", "webob.descriptors:parse_int", "webob.descriptors:parse_int_safe",
+    "webob.descriptors:parse_range", "webob.descriptors:serialize_range", "webob.descriptors:serialize_if_range",
+    "webob.descriptors:parse_auth", "webob.descriptors:serialize_auth", "webob.datetime_utils:parse_date",
+    "webob.datetime_utils:serialize_date", "webob.etag:ETagMatcher.parse", "webob.etag:IfRange.parse",
+    "webob.acceptparse:create_accept_header", "webob.acceptparse:create_accept_charset_header",
+    "webob.acceptparse:create_accept_encoding_header", "webob.acceptparse:create_accept_language_header",
+    "webob.byterange:Range.parse",
+    "webob.request:BaseRequest.body_file", "webob.request:BaseRequest.body_file_seekable", "webob.request:BaseRequest.body",
+    "webob.request:BaseRequest._json_body__get", "webob.request:BaseRequest._json_body__set",
+    "webob.request:BaseRequest._text__get", "webob.request:BaseRequest._text__set", "webob.request:BaseRequest.POST",
+    "webob.request:BaseRequest.params", "webob.request:BaseRequest._check_charset", "webob.request:BaseRequest.decode",
+    "webob.request:BaseRequest.copy", "webob.request:BaseRequest.copy_get", "webob.request:BaseRequest.copy_body",
+    "webob.request:BaseRequest.make_body_seekable", "webob.request:BaseRequest.is_body_readable",
+    "webob.request:LimitedLengthFile", "webob.request:Transcoder",
+    "webob.request:BaseRequest.client_addr", "webob.request:BaseRequest.host_port", "webob.request:BaseRequest.host_url",
+    "webob.request:BaseRequest.application_url", "webob.request:BaseRequest.path_url", "webob.request:BaseRequest.path",
+    "webob.request:BaseRequest.path_qs", "webob.request:BaseRequest.url", "webob.request:BaseRequest.relative_url",
+    "webob.request:BaseRequest.path_info_pop", "webob.request:BaseRequest.path_info_peek", "webob.request:BaseRequest.domain",
+    "webob.request:BaseRequest.is_xhr", "webob.request:BaseRequest._urlvars__get", "webob.request:BaseRequest._urlvars__set",
+    "webob.request:BaseRequest._urlvars__del", "webob.request:BaseRequest._urlargs__get",
+    "webob.request:BaseRequest._urlargs__set", "webob.request:BaseRequest._urlargs__del",
+    "webob.request:BaseRequest.remove_conditional_headers", "webob.request:BaseRequest._headers__set",
+    "webob.request:BaseRequest.as_bytes", "webob.request:BaseRequest.as_text", "webob.request:BaseRequest.__repr__",
+    "webob.request:AdhocAttrMixin.__setattr__", "webob.request:AdhocAttrMixin.__getattr__",
+    "webob.request:AdhocAttrMixin.__delattr__", "webob.request:environ_from_url", "webob.request:BaseRequest.blank",
+    "webob.headers:EnvironHeaders.__contains__", "webob.headers:EnvironHeaders.__len__", "webob.headers:EnvironHeaders.__iter__",
+    "collections.abc:MutableMapping.clear", "collections.abc:MutableMapping.popitem",
+    "webob.cookies:RequestCookies.get", "webob.cookies:RequestCookies.keys", "webob.cookies:RequestCookies.__contains__",
+    "webob.cookies:RequestCookies.__len__", "webob.multidict:GetDict.copy", "webob.multidict:MultiDict.update",
+    "webob.multidict:MultiDict.getall", "webob.multidict:MultiDict.getone", "webob.multidict:MultiDict.mixed",
+    "webob.multidict:NestedMultiDict", "webob.multidict:NoVars", "webob.multidict:MultiDict.from_fieldstorage",
+    "webob.cachecontrol:CacheControl.__str__", "webob.cachecontrol:CacheControl.copy",
+]
+
+
 def run(ctx):
+    ctx.modelled(MODELLED)
+    ctx.extra["regenerated_from_source"] = REGENERATED
+    ctx.extra["oracle_only"] = ORACLE_ONLY
+    ctx.extra["tabulated_from_source"] = TABULATED
     ctx.build(["Props/C01.vo"])
     for stage in (stage_strlib, stage_envview, stage_get_mutators, stage_oracle):
         try:
